@@ -10,7 +10,8 @@ import TinsModel.Matching.Out
   (`ptr + n, total_sz - n` is `buf.drop n`; every such subtraction is guarded in the C++, no wrap).
 
   Models the tree *after* the `fix:` commits of C14 (RadioTap size test, Ethernet/Dot3 reply source,
-  IPv4 destination-unreachable quote, IPv4 reply header length).
+  IPv4 destination-unreachable quote, IPv4 reply header length).  Classes without a matcher of their own
+  (SLL, LLC, Dot11, …) are `other`: they keep `PDU::matches_response`.
 -/
 namespace Tins.Matching
 
